@@ -159,7 +159,7 @@ Definition level_text (l : level) : list N :=
 Record record := mkR {
   time_txt : list N;                       (* oracle *)
   lvl : level;
-  src : option (list N * Z);               (* Some (trimmed file, line) iff addSource *)
+  src : option (list N * Z);               (* Some (f.File as the runtime reports it, f.Line) iff addSource *)
   msg : list N;
   attrs : list (list N * value) }.
 
@@ -170,9 +170,34 @@ Definition k_msg : list N := [109; 115; 103].
 Definition k_file : list N := [102; 105; 108; 101].
 Definition k_line : list N := [108; 105; 110; 101].
 
-(** appendJsonSource, after the file name has been cut to its last two path elements *)
+(** appendJsonSource.  The Go loop
+
+      idx, first := 0, false
+      for idx = len(f.File) - 1; idx > 0; idx-- {
+          if f.File[idx] == '/' { if first { break }; first = true }
+      }
+      ... f.File[idx+1:]
+
+    walks from the last byte down to the byte at index 1 (index 0 is never examined) and stops at
+    the second '/'.  [scan_back] is that loop on the reversed string: [rev_rest] = the bytes not
+    yet examined (last one first), [seen] = the bytes already passed = f.File[idx+1:].
+    Transcribed AS IS: when the loop runs out (fewer than two '/' at index >= 1) idx ends as 0
+    and the result is f.File[1:] — the first byte is dropped whatever it is. *)
+Fixpoint scan_back (rev_rest seen : list N) (first : bool) : list N :=
+  match rev_rest with
+  | [] => seen                                         (* empty file name: idx = -1, f.File[0:] *)
+  | b :: r =>
+    match r with
+    | [] => seen                                       (* b is f.File[0]: the condition idx > 0 fails *)
+    | _ => if b =? 47
+           then (if first then seen else scan_back r (b :: seen) true)
+           else scan_back r (b :: seen) first
+    end
+  end.
+Definition source_file (file : list N) : list N := scan_back (rev file) [] false.
+
 Definition append_json_source (file : list N) (line : Z) : list N :=
-  [34] ++ k_file ++ [34; 58; 34] ++ append_json_string file ++ [34; 44; 34] ++ k_line ++ [34; 58] ++ to_dec_z line.
+  [34] ++ k_file ++ [34; 58; 34] ++ append_json_string (source_file file) ++ [34; 44; 34] ++ k_line ++ [34; 58] ++ to_dec_z line.
 
 Definition handle (h : handler) (r : record) : list N :=
   [123; 34] ++ k_time ++ [34; 58; 34] ++ time_txt r
